@@ -2,6 +2,7 @@ import RtenVerif.Lemmas.IterNew
 import RtenVerif.Lemmas.IterMap
 import RtenVerif.Lemmas.IterSched
 import RtenVerif.Lemmas.IterPartition
+import RtenVerif.Lemmas.IterChunks
 
 /-!
 # C07 — Tensor iterators yield exactly the logical elements in order
@@ -14,11 +15,11 @@ tree `h` (any interleaving of `next`, `next_back`, `nth k`, `len`, `split_at k` 
 halves continued, ending in `fold`, reverse draining, or drop).
 
 Full statement of C07: for every layout and history, every iterator kind observes what the
-deque over its logical item list observes.  Proved here, at full strength, for the element
-iterators (`Iter`/`IterMut`, both the contiguous `Range` path and the `Indexing` path incl.
-`merge_axes`), for `Lanes`/`LanesMut` and for `InnerIter`/`InnerIterMut` (current, fixed
-code).  `AxisIter`/`AxisChunks` are modelled and tied to the code by the harness only (their
-pre-fix defects have `decide`d witnesses below); see `checks/C07.json`.
+deque over its logical item list observes.  Proved here, at full strength, for all modelled
+kinds on the current (fixed) code: the element iterators (`Iter`/`IterMut`, both the
+contiguous `Range` path and the `Indexing` path incl. `merge_axes`), `Lanes`/`LanesMut`,
+`InnerIter`/`InnerIterMut`, `AxisIter`/`AxisIterMut` and `AxisChunks`/`AxisChunksMut`.  The
+pre-fix defects have `decide`d negation witnesses below.
 -/
 namespace RtenVerif.Iter
 open OffsetsBase
@@ -112,6 +113,36 @@ theorem c07_inner_partition (dims : List (Nat × Nat)) (n : Nat)
 
 example : minDataLen ([(2, 6), (3, 2), (2, 1)].drop (3 - 2)) ≠ 0 := by decide
 
+
+/-! ### Axis iterators and axis chunks (C07.T3d, T4) -/
+
+/-- **C07.T3d** `axis_iter(axis)` / `axis_iter_mut(axis)`: for every view, every valid axis and
+every history (incl. `split_at` after partial consumption from either end), the yielded
+sub-views are exactly those of a deque over `[index_axis(axis, i) | i < size(axis)]`. -/
+theorem c07_axis_history (v : View) (axis : Nat) (ha : axis < v.dims.length) (h : Hist) :
+    run AxisIter.ops h (AxisIter.new v axis) = run (listOps Item) h (axisSpec v axis) := by
+  obtain ⟨hinv, habs⟩ := axis_new v axis ha
+  rw [run_refines axis_refines h _ hinv, habs]
+
+/-- **C07.T4** `axis_chunks(axis, c)` / `axis_chunks_mut(axis, c)`: for every view, valid axis,
+chunk size `c > 0` and every history, the yielded sub-views are exactly those of a deque over
+the logical chunks `[k*c, min((k+1)*c, size))`, `k < ceil(size / c)` — front items in order,
+back items in reverse, exact lengths, `split_at` on chunk boundaries. -/
+theorem c07_chunks_history (v : View) (axis c : Nat) (ha : axis < v.dims.length) (hc : 0 < c)
+    (h : Hist) :
+    run AxisChunks.ops h (AxisChunks.new v axis c) = run (listOps Item) h (chunksSpec v axis c) := by
+  obtain ⟨hinv, habs⟩ := chunks_new v axis c ha hc
+  rw [run_refines chunks_refines h _ hinv, habs]
+
+/-- **C07.T4 (cover)** The logical chunks partition the axis: their index ranges, concatenated
+in order, are exactly `0 .. size` — every index of the axis lies in exactly one chunk. -/
+theorem c07_chunks_cover (size c : Nat) (hc : 0 < c) :
+    (List.range (nChunks size c)).flatMap (chunkRange size c) = List.range size :=
+  chunks_cover size c hc
+
+/-- Non-vacuity of the hypotheses (a 2×5×3 view, axis 1, chunks of 2). -/
+example : (1 : Nat) < (View.mk 0 [(2, 15), (5, 3), (3, 1)]).dims.length ∧ 0 < 2 := by decide
+
 /-! ### Non-vacuity: concrete non-trivial histories (kernel-evaluated) -/
 
 /-- The transposed 3×3 layout goes through the `Indexing` path and `merge_axes`; the mixed
@@ -146,10 +177,6 @@ theorem c07_next_back_v0_false :
 /-- The same state on the fixed code (instance of `nextBack_spec`). -/
 example : witnessState.nextBack.1 = some 8 ∧ witnessState.nextBackV0.1 = some 5 := by decide
 
-/-- Logical item list of `axis_iter(axis)`. -/
-def axisSpec (v : View) (axis : Nat) : List Item :=
-  (List.range (v.size axis)).map (fun i => (v.indexAxis axis i).item)
-
 /-- **Pre-fix `AxisIter::split_at` is wrong**: it ignored the consumed prefix, so after
 `next()` the left half re-yields row 0 (for `AxisIterMut`: a second `&mut` view of row 0). -/
 theorem c07_axis_split_v0_false :
@@ -158,19 +185,11 @@ theorem c07_axis_split_v0_false :
       ≠ run (listOps Item) (.next (.split 1 .fold .fold)) (axisSpec ⟨0, [(3, 3), (3, 1)]⟩ 0) := by
   decide
 
-/-- The fixed `split_at` on the same input (sample, kernel-evaluated — a test, not a proof of
-the general statement). -/
+/-- The fixed `split_at` on the same input (kernel-evaluated instance of `c07_axis_history`). -/
 example :
     run AxisIter.ops (.next (.split 1 .fold .fold)) (AxisIter.new ⟨0, [(3, 3), (3, 1)]⟩ 0)
       = run (listOps Item) (.next (.split 1 .fold .fold)) (axisSpec ⟨0, [(3, 3), (3, 1)]⟩ 0) := by
   decide
-
-/-- Logical chunk list of `axis_chunks(axis, chunk)`. -/
-def chunksSpec (v : View) (axis chunk : Nat) : List Item :=
-  (List.range ((v.size axis + chunk - 1) / chunk)).map fun k =>
-    let lo := k * chunk
-    let hi := min ((k + 1) * chunk) (v.size axis)
-    (View.mk (v.base + lo * v.stride axis) (View.setSize v.dims axis (hi - lo))).item
 
 /-- **Pre-fix `AxisChunks::next_back` is wrong**: on an axis of 5 with chunks of 2 it yields
 `[3,4]` from the back, which is not a chunk of the forward sequence `[0,1] [2,3] [4]`. -/
@@ -180,7 +199,8 @@ theorem c07_chunks_next_back_v0_false :
       ≠ run (listOps Item) (.back .drop) (chunksSpec ⟨0, [(5, 1)]⟩ 0 2) := by
   decide
 
-/-- Fixed `AxisChunks` on the same layout, mixed history incl. `split_at(len)` (sample). -/
+/-- Fixed `AxisChunks` on the same layout, mixed history incl. `split_at` (kernel-evaluated
+instance of `c07_chunks_history`). -/
 example :
     run AxisChunks.ops (.back (.len (.split 2 .fold (.next .drop)))) (AxisChunks.new ⟨0, [(5, 1)]⟩ 0 2)
       = run (listOps Item) (.back (.len (.split 2 .fold (.next .drop)))) (chunksSpec ⟨0, [(5, 1)]⟩ 0 2) := by
